@@ -95,7 +95,11 @@ pub enum ReplyLine {
     BareC,
     Empty,
     Garbage,
+    /// a line that resembles a status / value / comment line without being one
+    Stray(u8),
 }
+
+const STRAY: [&str; 9] = ["v1 -2 0", "version 2", "v0", "vv 1 0", "sSATISFIABLE", "s satisfiable", "o 12", "v1", "s SATISFIABLE!"];
 
 fn reply_text(lines: &[ReplyLine], crlf: bool, final_newline: bool) -> String {
     let nl = if crlf { "\r\n" } else { "\n" };
@@ -118,6 +122,7 @@ fn reply_text(lines: &[ReplyLine], crlf: bool, final_newline: bool) -> String {
             ReplyLine::BareC => "c".into(),
             ReplyLine::Empty => "".into(),
             ReplyLine::Garbage => "solver banner without comment prefix".into(),
+            ReplyLine::Stray(k) => STRAY[*k as usize % STRAY.len()].into(),
         });
     }
     let mut s = out.join(nl);
@@ -178,7 +183,7 @@ pub fn ref_reply(lines: &[ReplyLine], nvars: usize) -> RefReply {
                 }
             }
             ReplyLine::VBad => return RefReply::Invalid("non-numeric token in value line"),
-            ReplyLine::Garbage => return RefReply::Invalid("line outside the output format"),
+            ReplyLine::Garbage | ReplyLine::Stray(_) => return RefReply::Invalid("line outside the output format"),
             ReplyLine::Comment(_) | ReplyLine::BareC | ReplyLine::Empty => {}
         }
     }
@@ -262,6 +267,7 @@ fn reply_lines(nvars: usize) -> BoxedStrategy<Vec<ReplyLine>> {
         1 => Just(9u8), // truncate lines
         1 => Just(10u8), // v before s
         1 => Just(11u8), // drop all v lines
+        2 => Just(12u8), // a stray line resembling a format line
     ];
     (well, corrupt, any::<u16>())
         .prop_map(move |(mut lines, c, r)| {
@@ -307,6 +313,10 @@ fn reply_lines(nvars: usize) -> BoxedStrategy<Vec<ReplyLine>> {
                     }
                 }
                 11 => lines.retain(|l| !matches!(l, ReplyLine::V(_))),
+                12 => {
+                    let p = pos(lines.len() + 1);
+                    lines.insert(p, ReplyLine::Stray((r >> 3) as u8))
+                }
                 _ => {}
             }
             lines
@@ -421,7 +431,7 @@ impl Prop for Exchange {
         "C16"
     }
     fn rule(&self) -> String {
-        "Three case kinds. Query: one argumentation problem (all 21, every selectable encoder, with/without certificate) on a generated framework of <=7 arguments run through ExternalSatSolver(fake_sat); fake_sat validates every DIMACS text strictly (header V >= every variable incl. assumption units, exact clause count, 0-terminated) and shapes its reply by generated knobs: 0-4000 comment lines of 2-200 bytes before/between/after (20 B to ~1 MiB, both sides of the 64 KiB pipe), 1..all literals per v line, read-first / write-first / chunk-interleaved / echo-while-reading I/O, CRLF; the answer must equal the brute-force answer. Reply: a small CNF whose reply is generated from a reply grammar (well-formed, or corrupted: missing/double status, missing/double terminator, out-of-range or non-numeric literal, stray line, s UNKNOWN, truncation, no model) and replayed verbatim; an independent reference reply parser decides Sat(model)/Unsat/Invalid/Unspecified and the solver object must return exactly that model / Unsatisfiable / (Unknown or abort). BigModel: SE-ST on a chain of 8k-30k arguments so that the instance and the v lines each exceed 64 KiB, with a banner of up to 600 KB printed before reading or comments echoed while reading (both pipes full at once). Every external interaction runs under a 30 s watchdog that consults the child's own progress log. Non-trivial: reply >64 KiB, or a reply classified Invalid, or a query needing >=2 external calls; distinct = case.".into()
+        "Three case kinds. Query: one argumentation problem (all 21, every selectable encoder, with/without certificate) on a generated framework of <=7 arguments run through ExternalSatSolver(fake_sat); fake_sat validates every DIMACS text strictly (header V >= every variable incl. assumption units, exact clause count, 0-terminated) and shapes its reply by generated knobs: 0-4000 comment lines of 2-200 bytes before/between/after (20 B to ~1 MiB, both sides of the 64 KiB pipe), 1..all literals per v line, read-first / write-first / chunk-interleaved / echo-while-reading I/O, CRLF; the answer must equal the brute-force answer. Reply: a small CNF whose reply is generated from a reply grammar (well-formed, or corrupted: missing/double status, missing/double terminator, out-of-range or non-numeric literal, stray line incl. look-alikes such as `v1 -2 0`, `version 2`, `s satisfiable`, s UNKNOWN, truncation, no model) and replayed verbatim; an independent reference reply parser decides Sat(model)/Unsat/Invalid/Unspecified and the solver object must return exactly that model / Unsatisfiable / (Unknown or abort). BigModel: SE-ST on a chain of 8k-30k arguments so that the instance and the v lines each exceed 64 KiB, with a banner of up to 600 KB printed before reading or comments echoed while reading (both pipes full at once). Every external interaction runs under a 30 s watchdog that consults the child's own progress log. Non-trivial: reply >64 KiB, or a reply classified Invalid, or a query needing >=2 external calls; distinct = case.".into()
     }
     fn assumptions(&self) -> Vec<String> {
         vec![
